@@ -62,6 +62,8 @@ type PoolEnt struct {
 	Fee   conc.Amt `json:"fee"`
 	Vsize int      `json:"vsize"`
 	Wt    int      `json:"weight"`
+	Sops  int      `json:"sops"` // SigopsCost
+	Vol   conc.Amt `json:"vol"`  // Volume
 	Mem   []bool   `json:"mem"`
 	Mic   int      `json:"mic"`
 }
@@ -180,6 +182,151 @@ func refWeight(raw []byte) (weight, vsize int) {
 	return
 }
 
+// ------------------------------------------------------------------ BIP141 sigop cost (own counting)
+
+// countSigops: CHECKSIG(VERIFY) = 1, CHECKMULTISIG(VERIFY) = the preceding OP_1..OP_16 when accurate, else 20
+func countSigops(sc []byte, accurate bool) (n int) {
+	last := byte(0xff)
+	for p := 0; p < len(sc); {
+		op := sc[p]
+		p++
+		switch {
+		case op >= 1 && op <= 75:
+			p += int(op)
+		case op == 76:
+			if p >= len(sc) {
+				return
+			}
+			p += 1 + int(sc[p])
+		case op == 77:
+			if p+1 >= len(sc) {
+				return
+			}
+			p += 2 + int(binary.LittleEndian.Uint16(sc[p:]))
+		case op == 78:
+			if p+3 >= len(sc) {
+				return
+			}
+			p += 4 + int(binary.LittleEndian.Uint32(sc[p:]))
+		}
+		if p > len(sc) {
+			return
+		}
+		switch op {
+		case 0xac, 0xad:
+			n++
+		case 0xae, 0xaf:
+			if accurate && last >= 0x51 && last <= 0x60 {
+				n += int(last - 0x50)
+			} else {
+				n += 20
+			}
+		}
+		last = op
+	}
+	return
+}
+
+// lastPush returns the data of the last push of a push-only script (ok = false: not push-only / malformed).
+func lastPush(sc []byte) (data []byte, ok bool) {
+	for p := 0; p < len(sc); {
+		op := sc[p]
+		p++
+		l := 0
+		switch {
+		case op <= 75:
+			l = int(op)
+		case op == 76 && p < len(sc):
+			l = int(sc[p])
+			p++
+		case op == 77 && p+1 < len(sc):
+			l = int(binary.LittleEndian.Uint16(sc[p:]))
+			p += 2
+		case op == 78 && p+3 < len(sc):
+			l = int(binary.LittleEndian.Uint32(sc[p:]))
+			p += 4
+		case op >= 0x4f && op <= 0x60:
+			data = nil
+			continue
+		default:
+			return nil, false
+		}
+		if p+l > len(sc) {
+			return nil, false
+		}
+		data = sc[p : p+l]
+		p += l
+	}
+	return data, true
+}
+
+func witnessSigops(prog []byte, wit [][]byte) int {
+	if len(prog) >= 2 && prog[0] == 0 { // version 0
+		if len(prog) == 22 {
+			return 1
+		}
+		if len(prog) == 34 && len(wit) > 0 {
+			return countSigops(wit[len(wit)-1], true)
+		}
+	}
+	return 0
+}
+
+func isWitnessProgram(sc []byte) bool {
+	return len(sc) >= 4 && len(sc) <= 42 && (sc[0] == 0 || (sc[0] >= 0x51 && sc[0] <= 0x60)) && int(sc[1]) == len(sc)-2
+}
+
+func isP2SH(sc []byte) bool { return len(sc) == 23 && sc[0] == 0xa9 && sc[1] == 20 && sc[22] == 0x87 }
+
+// refSigopCost: legacy sigops of every scriptSig and output script x 4, P2SH redeem-script sigops x 4,
+// witness sigops x 1 (native and P2SH-wrapped); spent[i] = the script of the output input i spends (nil: unknown)
+func refSigopCost(tx *btc.Tx, spent [][]byte) int {
+	legacy := 0
+	for _, in := range tx.TxIn {
+		legacy += countSigops(in.ScriptSig, false)
+	}
+	for _, o := range tx.TxOut {
+		legacy += countSigops(o.Pk_script, false)
+	}
+	cost := 4 * legacy
+	for i, in := range tx.TxIn {
+		spk := spent[i]
+		if spk == nil {
+			continue
+		}
+		var wit [][]byte
+		if len(tx.SegWit) > i {
+			wit = tx.SegWit[i]
+		}
+		if isWitnessProgram(spk) {
+			cost += witnessSigops(spk, wit)
+			continue
+		}
+		if isP2SH(spk) {
+			if redeem, ok := lastPush(in.ScriptSig); ok {
+				cost += 4 * countSigops(redeem, true)
+				if isWitnessProgram(redeem) {
+					cost += witnessSigops(redeem, wit)
+				}
+			}
+		}
+	}
+	return cost
+}
+
+// spentOf: scripts and total value of the outputs a scenario transaction spends (as far as they exist)
+func spentOf(w *conc.World, id int) (scripts [][]byte, vol uint64) {
+	for _, in := range w.Sc.Tx[id].Ins {
+		var sc []byte
+		if ptx := w.Tx(in.Tx); ptx != nil && in.Vout >= 1 && in.Vout <= len(ptx.TxOut) {
+			sc = ptx.TxOut[in.Vout-1].Pk_script
+			vol += ptx.TxOut[in.Vout-1].Value
+		}
+		scripts = append(scripts, sc)
+	}
+	return
+}
+
 // ------------------------------------------------------------------ the runner
 
 type blk struct {
@@ -291,7 +438,8 @@ func (r *runner) observe(withLst bool) *Obs {
 			bad("pool key of tx %d does not match its hash", id)
 		}
 		bidx2id[k] = id
-		e := PoolEnt{T: id, Fee: satAmt(t.Fee), Vsize: t.VSize(), Wt: t.Weight(), Mic: int(t.MemInputCnt), Mem: make([]bool, len(t.TxIn))}
+		e := PoolEnt{T: id, Fee: satAmt(t.Fee), Vsize: t.VSize(), Wt: t.Weight(), Sops: int(t.SigopsCost), Vol: satAmt(t.Volume),
+			Mic: int(t.MemInputCnt), Mem: make([]bool, len(t.TxIn))}
 		if t.MemInputs != nil {
 			if len(t.MemInputs) != len(t.TxIn) {
 				bad("tx %d: MemInputs has %d entries for %d inputs", id, len(t.MemInputs), len(t.TxIn))
@@ -461,6 +609,7 @@ func (r *runner) confirmed(upto int) map[outp]int {
 // selectValid keeps, in order, the candidates that are valid on top of view u at the given height.
 func (r *runner) selectValid(cands []int, u map[outp]int, height int) (sel []int) {
 	seen := map[int]bool{}
+	sigops := 400
 	for _, t := range cands {
 		d, ok := r.w.Sc.Tx[t]
 		if !ok || seen[t] {
@@ -490,6 +639,12 @@ func (r *runner) selectValid(cands []int, u map[outp]int, height int) (sel []int
 		}
 		if _, conf := u[outp{t, 1}]; conf {
 			continue
+		}
+		scripts, _ := spentOf(r.w, t)
+		if c := refSigopCost(r.w.Tx(t), scripts); sigops+c > 80000 {
+			continue
+		} else {
+			sigops += c
 		}
 		seen[t] = true
 		for _, in := range d.Ins {
@@ -690,15 +845,19 @@ func (r *runner) runOp(op *Op) {
 		func() {
 			txpool.TxMutex.Lock()
 			defer txpool.TxMutex.Unlock()
+			// assembled the way client/rpcapi does it: the listing is cut where the pool's RECORDED weight / sigop
+			// cost would pass the block limits
 			weight := 4000 // header + coinbase, generously
+			sigops := uint64(400)
 			for i, t := range txpool.GetSortedMempoolRBF() {
 				if op.K >= 0 && i >= op.K {
 					break
 				}
-				if weight+t.Weight() > 4e6 { // as client/rpcapi does when it assembles a block
+				if weight+t.Weight() > 4e6 || sigops+t.SigopsCost > btc.MAX_BLOCK_SIGOPS_COST {
 					break
 				}
 				weight += t.Weight()
+				sigops += t.SigopsCost
 				ids = append(ids, r.id(t.Hash.Hash))
 				fees += t.Fee
 			}
@@ -909,6 +1068,7 @@ type mTx struct {
 	Ins   []mIn  `json:"ins"`
 	Outs  []mOut `json:"outs"`
 	Vsize int    `json:"vsize"`
+	Sops  int    `json:"sops"`
 }
 
 // writeModelScenario: the universe as TraceMempool.tla reads it (a table keyed by id: see the note there)
@@ -929,6 +1089,8 @@ func writeModelScenario(w *conc.World, path string) error {
 			m.Outs = append(m.Outs, mOut{o.Amt})
 		}
 		_, m.Vsize = refWeight(w.Tx(id).Raw)
+		scripts, _ := spentOf(w, id)
+		m.Sops = refSigopCost(w.Tx(id), scripts)
 		txs[fmt.Sprint(id)] = m
 	}
 	b, _ := json.Marshal(map[string]interface{}{"baseh": w.Sc.BaseH, "ids": ids, "tx": txs})
@@ -962,6 +1124,7 @@ func cmdRun(args []string) {
 	model := fs.String("model", "", "")
 	dir := fs.String("dir", os.TempDir(), "")
 	bulk := fs.Int("bulk", 0, "bytes of padding of the bulky transactions (ids from 5001) - eviction tier")
+	nsig := fs.Int("sigops", 0, "size of the sigop family (ids from 6000): transactions spending scripts that carry signature operations")
 	skip := fs.Int("skip", 0, "operation sequences to skip (continuing after a panic of the pool)")
 	appendOut := fs.Bool("append", false, "append to -out")
 	hang := fs.Int("hang", 15, "seconds after which an operation that has not returned is examined by the watchdog")
@@ -989,6 +1152,9 @@ func cmdRun(args []string) {
 	}
 	if *bulk > 0 {
 		addBulky(w, *bulk)
+	}
+	if *nsig > 0 {
+		addSigops(w, *nsig)
 	}
 	if *model != "" {
 		if err := writeModelScenario(w, *model); err != nil {
